@@ -112,7 +112,8 @@ class StatsPart:
                                           hom_phased=True, stale_ps=(enc == "PS"), interleave=draw(st.booleans()))
             opts = {"sample": draw(st.sampled_from([None] + model["samples"])),
                     "only_snvs": draw(st.integers(0, 3)) == 0,
-                    "chromosomes": draw(st.sampled_from([None, None, ["chr1"], ["chr2"], ["chr1,chr2"], ["chr2", "chr1"]])),
+                    "chromosomes": draw(st.sampled_from([None, None, None, ["chr1"], ["chr2"], ["chr3"], ["chr1,chr2"], ["chr2", "chr1"],
+                                                         ["chr1,chr3"], ["chr3", "chr1"], ["chr2,chr3"], ["chr3,chr2,chr1"]])),
                     "gtf": draw(st.booleans())}
             return {"model": model, "truth": truth, "opts": opts}
         return case()
